@@ -8,6 +8,7 @@ import (
 	"go/constant"
 	"go/token"
 	"go/types"
+	"golang.org/x/tools/go/packages"
 	"strings"
 )
 
@@ -346,7 +347,7 @@ func c03Guard(p *Prog, r *Report) {
 	detail := ""
 	for _, snap := range []int64{-1, 5} {
 		for _, latest := range []int64{0, 3, 5, 7} {
-			env := &Env{P: p, Pkg: fi.Pkg, Vars: map[types.Object]*Val{}, Body: fi.Decl.Body}
+			env := &Env{P: p, Pkg: fi.Pkg, Vars: map[types.Object]*Val{}, Body: fi.Decl.Body, RangeOnce: true}
 			fv := &Val{Fields: map[string]*Val{"TxId": {Nil: true}, "BeforeSeq": {Nil: true}}}
 			if snap >= 0 {
 				fv.Fields["BeforeSeq"] = &Val{Ptr: intVal(snap)}
@@ -385,23 +386,57 @@ func c03Guard(p *Prog, r *Report) {
 	r.Check(good, "C03.c", cons, p.pos(ifs.Cond), "conflict iff snapshot point set and committed latest is newer", detail)
 	// the latest consulted is that of the destination (main) store for the key of the iteration
 	usesDest := false
-	ast.Inspect(ifs, func(x ast.Node) bool {
-		if x == ifs.Body || (ifs.Else != nil && x == ifs.Else) {
-			return false
-		}
-		if c, ok := x.(*ast.CallExpr); ok && p.callIs(fi.Pkg, c, kFileLatest) {
-			if sel, ok := c.Fun.(*ast.SelectorExpr); ok {
-				if fc, ok := ast.Unparen(sel.X).(*ast.CallExpr); ok && p.callIs(fi.Pkg, fc, "(*internal/model/core.Transaction).File") {
-					if s2, ok := fc.Fun.(*ast.SelectorExpr); ok {
-						if o := objOf(info, s2.X); o != nil && o == c03DestStore(p, fi) {
-							usesDest = true
+	// readsLatestOf: the subtree calls <store>.File(key).Latest() on the given store variable
+	readsLatestOf := func(pkg *packages.Package, root ast.Node, skip func(ast.Node) bool, store types.Object) bool {
+		found := false
+		ast.Inspect(root, func(x ast.Node) bool {
+			if skip != nil && skip(x) {
+				return false
+			}
+			if c, ok := x.(*ast.CallExpr); ok && p.callIs(pkg, c, kFileLatest) {
+				if sel, ok := c.Fun.(*ast.SelectorExpr); ok {
+					if fc, ok := ast.Unparen(sel.X).(*ast.CallExpr); ok && p.callIs(pkg, fc, "(*internal/model/core.Transaction).File") {
+						if s2, ok := fc.Fun.(*ast.SelectorExpr); ok {
+							if o := objOf(pkg.TypesInfo, s2.X); o != nil && o == store {
+								found = true
+							}
 						}
 					}
 				}
 			}
-		}
-		return true
-	})
+			return true
+		})
+		return found
+	}
+	dest := c03DestStore(p, fi)
+	usesDest = dest != nil && readsLatestOf(fi.Pkg, ifs, func(x ast.Node) bool { return x == ifs.Body || (ifs.Else != nil && x == ifs.Else) }, dest)
+	if !usesDest && dest != nil {
+		// the test was computed before the loop by a helper that is handed the destination store:
+		//   conflict := hasNewerVersion(newTx, tx, snapshot); ... if conflict { err = ErrTxSerialization }
+		ast.Inspect(ifs.Cond, func(x ast.Node) bool {
+			id, ok := x.(*ast.Ident)
+			if !ok {
+				return true
+			}
+			o := objOf(info, id)
+			if o == nil {
+				return true
+			}
+			if rhs := singleDefIn(info, fi.Decl.Body, o); rhs != nil {
+				if c, ok := ast.Unparen(rhs).(*ast.CallExpr); ok {
+					if h := p.staticCallee(fi.Pkg, c); h != nil && h.Pkg == fi.Pkg {
+						args := argExprs(c, h)
+						for i, po := range paramObjs(h) {
+							if po != nil && i >= 0 && args[i] != nil && objOf(info, args[i]) == dest && readsLatestOf(h.Pkg, h.Decl.Body, nil, po) {
+								usesDest = true
+							}
+						}
+					}
+				}
+			}
+			return true
+		})
+	}
 	r.Check(usesDest, "C03.c", cons+"/destination", p.pos(ifs.Cond), "the guard reads the destination store's latest version of the key", "the conflict guard does not read the latest committed version of the destination store")
 }
 
